@@ -2,7 +2,7 @@ SPECIFICATION Spec
 CONSTANTS
   MaxN = 4
   MaxV = 3
-  MaxW = 3
+  MaxW = 2
   Scales = {1, 2, 3}
   Freq = FALSE
 INVARIANT VarIsDefinition
